@@ -891,7 +891,21 @@ func (ex *Exec) builtin(fr *Frame, st *State, b *ssa.Builtin, c *ssa.CallCommon,
 	case "append":
 		s := ex.term(fr, st, c.Args[0])
 		if isStringType(c.Args[1].Type()) {
-			ex.vc.note("append of string bytes is opaque in %s", funcKey(fr.fn))
+			str := ex.term(fr, st, c.Args[1])
+			if lit, ok := ex.vc.tc.litOf(str.S); ok && len(lit) <= 16 {
+				// append(buf, "literal"...): the bytes are known
+				tc := ex.vc.tc
+				so := tc.sortOf(s.T)
+				sarr, slen := ex.sliceParts(s)
+				slen = ex.vc.define("alen", "Int", slen)
+				arr := sarr
+				byteT := types.Typ[types.Uint8]
+				for i := 0; i < len(lit); i++ {
+					arr = sx("store", arr, sx("+", slen, fmt.Sprint(i)), tc.intLit64(int64(lit[i]), byteT))
+				}
+				return Term{S: ex.vc.define("app", so, sx("mk_"+so, arr, sx("+", slen, fmt.Sprint(len(lit))))), T: s.T}
+			}
+			ex.vc.note("append of non-literal string bytes is opaque in %s", funcKey(fr.fn))
 			return ex.havocValue(st, "appendstr", s.T)
 		}
 		t := ex.term(fr, st, c.Args[1])
